@@ -29,7 +29,7 @@ RULE = (
     "call returns or raises. non-trivial = the call returned on a network with >=2 edges; distinct = distinct "
     "(callable, network, picks) JSON. An enumerated sweep calls every callable on two fixed networks per class."
 )
-BUDGET = {"quick": 1400, "thorough": 40000}
+BUDGET = {"quick": 9000, "thorough": 120000}
 ASSUMPTIONS = [
     "callables documented as in-place (mutators, in_place=True, update_uid_counter) are excluded here and exercised by C01-C05/C18",
     "a callable whose required parameters cannot be synthesised from the registry is listed under coverage.uncovered_callables (never a failure)",
@@ -74,7 +74,8 @@ NAMES = sorted(FUNCS) + sorted(STATS) + sorted(VIEWMETHODS) + sorted(METHODS)
 
 @st.composite
 def cases(draw, tier):
-    name = draw(st.sampled_from(NAMES))
+    # module-level functions carry most of the option combinations: three draws in five go to them
+    name = draw(st.sampled_from(sorted(FUNCS))) if draw(st.integers(0, 4)) < 3 else draw(st.sampled_from(NAMES))
     cls = None
     if name.startswith("fn:"):
         p0 = list(inspect.signature(FUNCS[name]).parameters)[0]
@@ -108,13 +109,22 @@ def _edge(H, k):
     return es[k % len(es)] if es else 0
 
 
+def _present_order(H, k):
+    """the order of one of the network's own edges (so that order-filtered functions have something to do)"""
+    try:
+        orders = sorted({len(m) - 1 for m in H.edges.members()})
+    except Exception:  # noqa: BLE001
+        orders = []
+    return orders[(k // 2) % len(orders)] if orders else k % 4
+
+
 def _pos(H, k):
     C = nets.clone(H)
     return xgi.circular_layout(C)
 
 
 REG = {
-    "order": lambda H, k, f: 1 if f == "simulate_simplicial_kuramoto" else (None if (k % 5 == 4 and f not in ("cut_to_order", "k_skeleton", "adjacency_tensor", "shuffle_hyperedges")) else k % 4),
+    "order": lambda H, k, f: 1 if f == "simulate_simplicial_kuramoto" else _present_order(H, k) if k % 2 else (None if (k % 5 == 4 and f not in ("cut_to_order", "k_skeleton", "adjacency_tensor", "shuffle_hyperedges")) else k % 4),
     "max_order": lambda H, k, f: None if k % 3 == 0 else k % 4,
     "d": lambda H, k, f: k % 4,
     "n": lambda H, k, f: _node(H, k),
@@ -173,8 +183,31 @@ ALWAYS = {"in_place", "timesteps", "n_steps", "max_iter", "num_samples", "cutoff
 ALWAYS_FOR = {"draw_node_labels": {"node_labels"}, "draw_hyperedge_labels": {"hyperedge_labels"}, "simulate_simplicial_kuramoto": {"order"}}
 
 
+def _node_swap_args(H, picks):
+    """interdependent arguments: an order that is present and two nodes that both lie in edges of that order"""
+    mem = H.edges.members(dtype=dict)
+    orders = sorted({len(m) - 1 for m in mem.values()})
+    order = None if (not orders or picks[2] % 3 == 0) else orders[picks[3] % len(orders)]
+    pool = sorted({n for m in mem.values() if order is None or len(m) == order + 1 for n in m}, key=repr)
+    if len(pool) < 2:
+        return None
+    a = pool[picks[4] % len(pool)]
+    b = pool[(picks[4] + 1 + picks[5] % (len(pool) - 1)) % len(pool)]
+    return [a, b], {"id_temp": "__tmp__", "order": order}
+
+
+OVERRIDES = {"node_swap": _node_swap_args}
+
+
 def synth(fname, f, H, picks, tmp):
     """(args, kwargs) for f(H, ...) or None when a required parameter has no registered strategy"""
+    if fname in OVERRIDES and picks[6] % 4:
+        try:
+            r = OVERRIDES[fname](H, picks)
+        except Exception:  # noqa: BLE001
+            r = None
+        if r is not None:
+            return r
     ps = list(inspect.signature(f).parameters.values())[1:]
     args, kw = [], {}
     for i, p in enumerate(ps):
